@@ -14,19 +14,23 @@ DOT = ('set', R.DOT)
 def pool():
     return [("a", A, None), ("ab", R.cat(A, B), None), ("abc", R.cat(A, B, C_), None), ("a+", R.plus(A), None),
             ("[ab]+", R.plus(AB), None), ("a/b", A, B), (".", DOT, None), ("a+/b", R.plus(A), B), ("b|ab", R.alt(B, R.cat(A, B)), None),
-            ("ab?", R.cat(A, R.opt(B)), None), ("ab*", R.cat(A, R.star(B)), None), ("a?b", R.cat(R.opt(A), B), None)]
+            ("ab?", R.cat(A, R.opt(B)), None), ("ab*", R.cat(A, R.star(B)), None), ("a?b", R.cat(R.opt(A), B), None),
+            # variable-length head and trail: these rules use the REJECT machinery themselves (round-2 seed C07-r2m2)
+            ("a+/b+", R.plus(A), R.plus(B)), ("a+/b+c", R.plus(A), R.cat(R.plus(B), C_))]
 
 
 def groups(L, quick, action, prefix="G", nul=False):
     P = pool()
     sets = [p for p in itertools.permutations(range(len(P)), 2)]
     sets += [p for p in itertools.permutations([0, 1, 3, 4, 9] if quick else [0, 1, 2, 3, 4, 5, 9, 10], 3)]
+    sets = [p for p in sets if not (set(p) & {12, 13})]
     sets += [(0, 1, 2, 3, 4), (4, 3, 2, 1, 0), (5, 0, 1, 6), (6, 5, 4, 3), (7, 0, 3, 5), (8, 1, 0, 4), (3, 7, 5, 0, 1, 2)]
+    sets += [(12, 0), (0, 12), (12, 3, 1), (13, 0, 1), (13, 3), (3, 13, 4), (12, 13, 0), (13, 2, 6)]
     out = []
     for gi, idx in enumerate(sets):
         name = "%s%d" % (prefix, gi)
         rules = [H.Rule(P[i][1], trail=P[i][2], scs=[name], action=action) for i in idx]
-        out.append(H.Group([(name, True)], rules, name, b"abc\n" if any(i == 2 for i in idx) else b"ab\n", L,
+        out.append(H.Group([(name, True)], rules, name, b"abc\n" if any(i in (2, 13) for i in idx) else b"ab\n", L,
                            label="reject:" + " ; ".join(P[i][0] for i in idx)))
     if nul:
         # ordinary rule sets scanned over inputs containing NUL: the automaton jams on the NUL right after matched text
